@@ -57,3 +57,72 @@ Proof.
   destruct (invN_reach cf s R Hn) as [[[a Ha]|[Hcoll _]] _]; [congruence|].
   rewrite Hcoll, app_nil_r in PV. simpl in PV. exact PV.
 Qed.
+
+(* ---- the clean family in terms of Spec.v ---- *)
+From God Require Import C07.Spec C07.ProofsE.
+
+Lemma wrote_step cf s l s' : cinv s -> step cf s l = Some s' -> wrote s = false -> wrote s' = false.
+Proof.
+  intros (_ & _ & Hw & Hg & Hr & _) H W.
+  destruct l; simpl in H; unf_step H; unfold set_w, cancel_fin in H.
+  - inv_step H; auto.
+  - destruct (g s) eqn:Eg; try discriminate Hg; inv_step H; auto.
+  - inv_step H; auto.
+  - inv_step H; auto.
+  - inv_step H; auto.
+  - inv_step H; auto.
+  - inv_step H; auto.
+  - destruct (nth_error (ws s) i) as [[it p]|] eqn:En; [|discriminate].
+    pose proof (forallb_nth _ _ _ _ Hw En) as Hp. unfold wokb in Hp. simpl in Hp.
+    destruct p; try discriminate Hp; inv_step H; auto.
+  - destruct (r s) eqn:Er; simpl in Hr; try discriminate Hr; inv_step H; auto.
+  - inv_step H; auto.
+  - inv_step H; auto.
+  - inv_step H; auto.
+  - inv_step H; auto.
+Qed.
+
+Lemma clean_run_wrote cf ls : forall s s', clean_cfg cf -> env_free ls -> reachable cf s -> cinv s ->
+  wrote s = false -> run cf s ls = Some s' -> wrote s' = false.
+Proof.
+  induction ls as [|l t IH]; simpl; intros s s' Hc He R I W H.
+  - inversion H; subst; exact W.
+  - destruct (step cf s l) as [s1|] eqn:E; [|discriminate].
+    assert (He' : env_free t) by (intro Hin; apply He; right; exact Hin).
+    assert (Hl : l <> LEnv) by (intro Hl; apply He; left; auto).
+    destruct (cinv_run cf [l] s s1 Hc) as [I1 R1]; auto.
+    { intros [Hin|[]]. apply Hl; auto. }
+    { simpl. rewrite E. reflexivity. }
+    apply (IH s1 s' Hc He' R1 I1); [|exact H]. exact (wrote_step cf s l s1 I E W).
+Qed.
+
+Lemma clean_run_clean cf ls s : clean_cfg cf -> env_free ls -> run cf (init cf) ls = Some s -> clean s.
+Proof.
+  intros Hc He H. destruct (clean_run_inv cf ls s Hc He H) as [I R].
+  destruct I as (I1 & I2 & _). split; [exact I1|]. split; [exact I2|].
+  eapply (clean_run_wrote cf ls (init cf) s); eauto using reachable_init, cinv_init.
+Qed.
+
+Lemma rwrites_writes a : rwrites a = writes a.
+Proof. induction a as [|[k|p] t IH]; simpl; congruence. Qed.
+
+Lemma clean_cfg_no_rpanic cf : clean_cfg cf -> no_rpanic (rafter cf).
+Proof. intros (_ & _ & _ & _ & H & _). exact H. Qed.
+
+(* every complete clean run satisfies the Spec's clean clause *)
+Lemma clean_family_spec cf ls s : clean_cfg cf -> env_free ls -> run cf (init cf) ls = Some s -> final s = true ->
+  all_exited s /\ exists o, c s = CDone o /\ clean_spec cf (map fst (ws s)) (recvd s) o.
+Proof.
+  intros Hc He H F.
+  pose proof (clean_run_clean cf ls s Hc He H) as C.
+  destruct (clean_run_inv cf ls s Hc He H) as [_ R].
+  pose proof (final_all_exited s F) as A. split; [exact A|].
+  destruct A as (_ & _ & _ & _ & o & Ho). exists o. split; [exact Ho|].
+  destruct (clean_final_written_all cf ls s Hc He H F) as [PW PI].
+  destruct (exactly_once_clean cf s R C F) as (_ & _ & _ & _ & PR).
+  constructor.
+  - exact PI.
+  - intro Hn. eapply Permutation_trans; [apply Permutation_sym; exact PW|exact (PR Hn)].
+  - unfold spec_result. rewrite rwrites_writes.
+    exact (clean_result cf s o R C (clean_cfg_no_rpanic cf Hc) Ho).
+Qed.
